@@ -24,6 +24,7 @@ import (
 	"os"
 	"runtime/debug"
 	"sort"
+	"strconv"
 	"strings"
 	"sync"
 
@@ -644,7 +645,81 @@ func init() {
 		return fmt.Sprintf("status=%d title=%v any=%v", rec.Code, got.Title == "t"+a[0],
 			got.Extra.Note == "note"+a[0] && strings.HasSuffix(got.Extra.Type, "/vanguard.test.v1.Extra"))
 	}
+	// schema_mixed <n>: a freshly built copy of the library schema with one more method whose request type lives
+	// in a file every copy shares (google.protobuf.Empty) and whose response type lives in the fresh file, bound
+	// with a response_body; registered once with the default resolver and once with a resolver that knows the
+	// message names from another copy of the schema (the linked-in Go types).  The REST call must be answered
+	// alike, and as the schema says.
+	executors["schema_mixed"] = func(a []string) string {
+		svc, err := mixedLibrary()
+		if err != nil {
+			return "setup-error " + err.Error()
+		}
+		file := svc.ParentFile()
+		resp, checkout := file.Messages().ByName("ListCheckoutsResponse"), file.Messages().ByName("Checkout")
+		n, _ := strconv.Atoi(a[0])
+		backend := http.HandlerFunc(func(w http.ResponseWriter, r *http.Request) {
+			_, _ = io.ReadAll(r.Body)
+			m := dynamicpb.NewMessage(resp)
+			c := dynamicpb.NewMessage(checkout)
+			c.Set(checkout.Fields().ByName("id"), protoreflect.ValueOfUint64(uint64(n)+7))
+			m.Mutable(resp.Fields().ByName("checkouts")).List().Append(protoreflect.ValueOfMessage(c))
+			out, _ := proto.Marshal(m)
+			w.Header().Set("Content-Type", "application/proto")
+			_, _ = w.Write(out)
+		})
+		serve := func(opts ...vanguard.ServiceOption) (res string) {
+			defer func() {
+				if r := recover(); r != nil {
+					res = "PANIC"
+				}
+			}()
+			opts = append([]vanguard.ServiceOption{vanguard.WithTargetProtocols(vanguard.ProtocolConnect), vanguard.WithTargetCodecs("proto"),
+				vanguard.WithNoTargetCompression()}, opts...)
+			t, err := vanguard.NewTranscoder([]*vanguard.Service{vanguard.NewServiceWithSchema(svc, backend, opts...)})
+			if err != nil {
+				return "config-rejected"
+			}
+			rec := httptest.NewRecorder()
+			t.ServeHTTP(rec, httptest.NewRequest("GET", "http://example.test/v2/allcheckouts", http.NoBody))
+			return fmt.Sprintf("%d:%s", rec.Code, strings.Join(strings.Fields(rec.Body.String()), ""))
+		}
+		dflt, global := serve(), serve(vanguard.WithTypeResolver(protoregistry.GlobalTypes))
+		return fmt.Sprintf("status=%s same=%v ok=%v", strings.SplitN(dflt, ":", 2)[0], dflt == global,
+			strings.Contains(dflt, fmt.Sprintf(`"id":"%d"`, n+7)) && strings.HasPrefix(strings.SplitN(dflt+":", ":", 2)[1], "["))
+	}
 	streams["schema"] = streamSchema
+}
+
+var mixedLibraryOnce protoreflect.ServiceDescriptor
+
+// mixedLibrary: the library schema rebuilt from its descriptor proto plus
+// `rpc ListAllCheckouts(google.protobuf.Empty) returns (ListCheckoutsResponse)` bound to GET /v2/allcheckouts
+// with response_body "checkouts".
+func mixedLibrary() (protoreflect.ServiceDescriptor, error) {
+	if mixedLibraryOnce != nil {
+		return mixedLibraryOnce, nil
+	}
+	d, err := protoregistry.GlobalFiles.FindDescriptorByName(protoreflect.FullName(veriftest.LibraryServiceName))
+	if err != nil {
+		return nil, err
+	}
+	fdp := proto.Clone(protodesc.ToFileDescriptorProto(d.ParentFile())).(*descriptorpb.FileDescriptorProto)
+	opts := &descriptorpb.MethodOptions{}
+	proto.SetExtension(opts, annotations.E_Http, &annotations.HttpRule{Pattern: &annotations.HttpRule_Get{Get: "/v2/allcheckouts"}, ResponseBody: "checkouts"})
+	str := func(s string) *string { return &s }
+	for _, sv := range fdp.Service {
+		if sv.GetName() == string(d.Name()) {
+			sv.Method = append(sv.Method, &descriptorpb.MethodDescriptorProto{Name: str("ListAllCheckouts"), InputType: str(".google.protobuf.Empty"),
+				OutputType: str(".vanguard.test.v1.ListCheckoutsResponse"), Options: opts})
+		}
+	}
+	f, err := protodesc.NewFile(fdp, protoregistry.GlobalFiles)
+	if err != nil {
+		return nil, err
+	}
+	mixedLibraryOnce = f.Services().ByName(d.Name())
+	return mixedLibraryOnce, nil
 }
 
 var revisedLibraryOnce protoreflect.FileDescriptor
@@ -819,6 +894,10 @@ func streamSchema(e *Emitter, rng *rand.Rand, tier string) {
 	for k := 0; k < 5; k++ {
 		e.Class("schema:proto2-extension")
 		e.Emit(fmt.Sprintf("schema_ext %d", k))
+	}
+	for k := 0; k < 3; k++ {
+		e.Class("schema:request-type-shared-response-type-fresh")
+		e.Emit(fmt.Sprintf("schema_mixed %d", k))
 	}
 	for k := 0; k < 3; k++ {
 		e.Class("schema:revised-copy-of-linked-in-file")
